@@ -112,6 +112,23 @@ def check_shape(ctx, cs):
         if [int(x) for x in filled] != list(o["filled"]):
             bad = [i for i, (a, b) in enumerate(zip(filled, o["filled"])) if int(a) != b]
             ctx.violate("voxelize.voxelize", tg + ["filled"], small, {"first_bad_voxel": bad[0], "expected": o["filled"][bad[0]], "n_bad": len(bad)})
+        elif not cubes and o["filled"][-1] == 1 and ctx.extra.setdefault("mp_voxelisations", 0) < 8:
+            # the last voxel is filled: the same answer with 2 and 3 worker processes (the count of voxels is not a multiple of both)
+            ctx.extra["mp_voxelisations"] += 1
+            for npr in (2, 3):
+                if len(grid) % npr == 0:
+                    continue
+                def run_mp():
+                    ob2 = build(sh)
+                    if pd == 2:
+                        ob2.sample_size_u, ob2.sample_size_v = ns
+                    else:
+                        ob2.sample_size_u, ob2.sample_size_v, ob2.sample_size_w = ns
+                    return voxelize.voxelize(ob2, grid_size=tuple(gs), num_procs=npr)
+                ok, r2 = _try(ctx, "voxelize.voxelize", tg + ["num_procs=%d" % npr], small, run_mp)
+                if ok and [int(x) for x in r2[1]] != list(o["filled"]):
+                    bad = [i for i, (a, b) in enumerate(zip(r2[1], o["filled"])) if int(a) != b]
+                    ctx.violate("voxelize.voxelize", tg + ["num_procs=%d" % npr, "filled"], small, {"first_bad_voxel": bad[0], "voxels": len(grid), "n_bad": len(bad)})
     elif o["op"] == "find_ctrlpts":
         prm = [float(x) for x in frv(o["prm"])]
         small = dict(small, prm=o["prm"])
